@@ -5,6 +5,7 @@ import (
 	"context"
 	"errors"
 	"fmt"
+	"io"
 	"strconv"
 	"testing"
 	"time"
@@ -30,6 +31,7 @@ type round struct {
 	Pkgs        []rc.P `json:"pkgs"`
 	Cuts        []int  `json:"cuts"`
 	FailAt      int    `json:"fail_at"` // -1: read package by package; k>=0: NextPackageUntil whose callback fails at its k-th invocation
+	WrapEOF     bool   `json:"callback_error_wraps_eof"`
 }
 
 type c11Case struct {
@@ -147,6 +149,10 @@ func runCase(c c11Case) (f *vh.Failure) {
 					log = append(log, event{seq: seq, kind: "recv", pkg: p})
 					calls++
 					if calls-1 == r.FailAt {
+						if r.WrapEOF {
+							// still "an error that is not an unwrapped io.EOF"
+							return false, fmt.Errorf("%w: %w", errCB, io.EOF)
+						}
 						return false, errCB
 					}
 					d, ok := p.(*tds.DonePackage)
@@ -343,6 +349,7 @@ func TestHooks(t *testing.T) {
 			r.Cuts = respgen.Cuts(rt, len(stream), true)
 			if rapid.IntRange(0, 2).Draw(rt, "until") == 0 {
 				r.FailAt = rapid.IntRange(0, 6).Draw(rt, "failat")
+				r.WrapEOF = rapid.IntRange(0, 2).Draw(rt, "wrapeof") == 0
 			}
 			c.Rounds = append(c.Rounds, r)
 		}
@@ -373,7 +380,7 @@ func TestSpecialPackagesEveryCut(t *testing.T) {
 	stream, _, _, _ := rc.EncodeStream(ps)
 	for a := 1; a < len(stream); a++ {
 		for _, failAt := range []int{-1, 0, 1} {
-			if !e.Do(c11Case{Rounds: []round{{NewEEDHooks: 2, NewEnvHooks: 2, Pkgs: ps, Cuts: []int{a}, FailAt: failAt}, {NewEEDHooks: 1, Pkgs: ps, Cuts: []int{a, a + 1}, FailAt: -1}}}) {
+			if !e.Do(c11Case{Rounds: []round{{NewEEDHooks: 2, NewEnvHooks: 2, Pkgs: ps, Cuts: []int{a}, FailAt: failAt, WrapEOF: a%2 == 0}, {NewEEDHooks: 1, Pkgs: ps, Cuts: []int{a, a + 1}, FailAt: -1}}}) {
 				return
 			}
 		}
